@@ -85,8 +85,20 @@ def bin_reference(fd, span: bytes):
 def run_impl(case):
     f = codec.mk_field(case["field"])
     outs, refs = [], []
-    for lj in case["lines"]:
+    for n, lj in enumerate(case["lines"]):
         line = codec.dec_data(lj)
+        if n % 2 == 1 and case["field"]["size"] > 0:
+            # between two reads the same field object WRITES a value (text and bytes): what a field
+            # reads afterwards still depends only on the span and on the declaration
+            try:
+                from datetime import datetime
+
+                k = case["field"]["k"]
+                f.value = {"int": 7, "flt": 1.5, "lit": "w", "date": datetime(2021, 12, 25)}[k]
+                f.write("")
+                f.write(b"")
+            except Exception:
+                pass
         try:
             ret = codec.enc_val(f.read(line))
             kept = codec.enc_val(f.value)  # what the field object holds afterwards (what Line.read gathers)
